@@ -33,7 +33,9 @@ COMPONENTS = {
              'and signature verification via cryptography)', 'other accounts (noise operations)'],
 }
 ASSUMPTIONS = [
-    'Histories are serial: between the last fill/autofill of a group and its injection no other group of the account is injected.',
+    'Histories are serial: between the last *successful* fill/autofill of a group and its injection no other group of the account is injected; '
+    'preparations of two groups may interleave as long as that holds. Injections outside this shape (a refill failed and the stale result is '
+    'injected after another group went in) are counted as interleaved_unjudged.',
     'A block that includes the account\'s own operations landing between the counter read and the mempool read of one client call is an inherent '
     'race of two non-atomic RPC reads; such injections are counted as informational (race_unjudged), not judged.',
     'run_operation validates counters against the head context like Octez does (pending operations are not applied), so simulating an already '
@@ -41,7 +43,7 @@ ASSUMPTIONS = [
     'tz4: OperationGroup.sign() cannot produce a generic BLS signature today (subject of C07/C23); the harness attaches the curve-specific signature.',
     'The current Octez mempool dialect is `validated` (the repository\'s own block/header.py and RPC docs use it); the legacy `applied` dialects are sampled too.',
 ]
-EXPECTED_PROBES = ['injection_with_pending', 'injection_after_failed_injection', 'ack_lost_then_reinjected', 'baked_inside_client_call',
+EXPECTED_PROBES = ['interleaved_preparation', 'injection_with_pending', 'injection_after_failed_injection', 'ack_lost_then_reinjected', 'baked_inside_client_call',
                    'refill_before_inject', 'counter_crossed_varint_boundary', 'batch_injected']
 
 TEMPLATES = {
@@ -59,6 +61,11 @@ TEMPLATES = {
     'fill_inspect_send': ['new', 'fill', 'send'],
     'fill_twice': ['new', 'fill', 'fill', 'sign', 'inject'],
     'fill_filled': ['new', 'fill', 'fill@filled', 'sign', 'inject'],
+    # two groups of the account whose preparations interleave; each group's *last* fill still follows the other group's injection,
+    # so the history stays inside the statement ("#1" = the second group)
+    'inspect_other_sends_then_send': ['new', 'autofill', 'new#1', 'send#1', 'send'],
+    'fill_other_injects_then_autofill': ['new', 'fill', 'new#1', 'autofill#1', 'sign#1', 'inject#1', 'autofill', 'sign', 'inject'],
+    'inspect_other_fails_then_send': ['new', 'autofill', 'new#1', 'autofill#1', 'sign#1', 'inject#1!reject', 'send'],
 }
 FAULT_KINDS = ['transient', 'preval', 'latency', 'transient_cap']
 
@@ -130,8 +137,9 @@ def gen(seed, tier):
         for tok in TEMPLATES[tname]:
             env_steps()
             base, _, mark = tok.partition('!')
+            base, _, other = base.partition('#')
             op, _, frm = base.partition('@')
-            st = {'op': op, 'g': g}
+            st = {'op': op, 'g': g + ('b' if other else '')}
             if op == 'new':
                 st['contents'] = gen_contents(rng, n)
                 st['via'] = rng.choice(['chain', 'chain', 'bulk'])
@@ -200,8 +208,10 @@ class C25World(cs.World):
             p_now = node.pending_of(self.pkh)
             # counters are (re)assigned only when filling from the unfilled base
             reassigns = st['op'] == 'send' or not (st.get('from') == 'filled' and g0 is not None and g0.get('filled') is not None)
+            acc_now = self.sim.stats.get('injections_accepted', 0)
             if g0 is not None and st['op'] == 'send':
                 g0['n_fill'], g0['p_fill'] = n_now, p_now
+                g0['acc_at_fill'] = acc_now
             ok = False
             try:
                 orig(st)
@@ -212,6 +222,7 @@ class C25World(cs.World):
                 g = self.groups.get(st.get('g'))
                 if g is not None and st['op'] in ('fill', 'autofill') and ok:
                     g['tainted'] = bool(node.race_tainted.get(self.pkh))
+                    g['acc_at_fill'] = acc_now
                     if reassigns:
                         g['n_fill'], g['p_fill'] = n_now, p_now
 
@@ -239,12 +250,19 @@ def oracle(world, info):
         world.bump(world.probes, 'injection_after_failed_injection')
     if prior > 0:
         world.bump(world.probes, 'refill_before_inject')
+    if any(name != st.get('g') and name.rstrip('b') == str(st.get('g', '')).rstrip('b') for name in world.groups):
+        world.bump(world.probes, 'interleaved_preparation')
     if len(got) > 1:
         world.bump(world.probes, 'batch_injected')
     lo, hi = want[0], want[-1]
     if any(lo <= b <= hi + 1 for b in (128, 16384, 2**21, 2**28, 2**63, 2**64)) or any(lo - 1 < b <= hi for b in (128, 16384, 2**21)):
         world.bump(world.probes, 'counter_crossed_varint_boundary')
     tainted = bool(g.get('tainted')) or bool(world.node.race_tainted.get(world.pkh))
+    if g.get('acc_at_fill') is not None and world.sim.stats.get('injections_accepted', 0) != g['acc_at_fill']:
+        # another group of the account was accepted after this group's last successful fill (e.g. its refill failed and the
+        # stale result was injected anyway): the history left the shape the statement speaks about
+        world.bump(world.info, 'interleaved_unjudged')
+        return None
     if got == want:
         world.judged += 1
         return None
